@@ -141,6 +141,11 @@ def correspondence_rules(prog, chk, pid):
     where_p = "%s:%d" % (fi_p.file, fi_p.lineno)
     matches = _match_events(prog, resp)
     news = [e for e in resp.events if e.kind == "new" and e.d["cls"].name == "ConfigId"]
+    if len(news) == 1:
+        # one construction whose arguments are conditional values under one condition: the two constructions it stands for
+        from rules.bf3 import split_conditional_news
+
+        news = split_conditional_news(news)
     if len(matches) != 2 or len(news) != 2 or len(fmts) != 2:
         chk.fail(P("two-text-forms"), fi_p.qualname, "two patterns / two printers", where_p, "expected two regular expressions, two constructions and two format calls (found %d/%d/%d)" % (len(matches), len(news), len(fmts)))
         return None
@@ -305,8 +310,11 @@ def correspondence_rules(prog, chk, pid):
         anchored = m.d["name"] == "re.fullmatch" or regexfmt.is_end_anchored(pat)
         chk.require(anchored, P("whole-text-matched"), fi_p.qualname, "%s(%r, text)" % (m.d["name"], pat), m.where, "the pattern must match the whole text (fullmatch / end anchor): text with trailing garbage raises the format error", "pattern is applied with %s and no end anchor: trailing text after a valid identifier is silently dropped" % m.d["name"])
     # ---- final else raises the documented error
-    raises = [e for e in resp.events if e.kind == "raise" and len(e.stack) == 1]
-    chk.require(len(raises) == 1 and str(raises[0].d["exc"]).endswith("ConfigIdFormatError") and all(f[0] == "if" and f[2] is False for f in raises[0].ctx), P("unparsable-raises-format-error"), fi_p.qualname, "else: raise ConfigIdFormatError", raises[0].where if raises else where_p, "text matching neither form raises ConfigIdFormatError", "text matching neither form does not raise ConfigIdFormatError")
+    from bfsa.symexec import _is_new_function as _newf
+
+    # (raised by the parser itself or by a helper carved out of it: frames below the parser belong to functions that did not exist on the pinned tree)
+    raises = [e for e in resp.events if e.kind == "raise" and (len(e.stack) == 1 or all(q in prog.funcs and _newf(prog.funcs[q]) for q in e.stack[1:]))]
+    chk.require(len(raises) == 1 and str(raises[0].d["exc"]).endswith("ConfigIdFormatError") and all(f[2] is False for f in raises[0].ctx if f[0] == "if") and not any(f[0] in ("loop", "try", "except", "tryelse") for f in raises[0].ctx), P("unparsable-raises-format-error"), fi_p.qualname, "else: raise ConfigIdFormatError", raises[0].where if raises else where_p, "text matching neither form raises ConfigIdFormatError", "text matching neither form does not raise ConfigIdFormatError")
     return result, f1, f2
 
 
